@@ -105,6 +105,105 @@ CORPUS = [
 ]
 
 
+# ------------------------------------------------------------------ E3 cases (qrwlock state word) -----
+B36 = '0123456789abcdefghijklmnopqrstuvwxyz'
+
+
+def q_case(scripts, sched, bound=400, full=True):
+    return 'Q %d %s | %s | %s' % (bound, 'full' if full else 'nolog', ' | '.join(' '.join(x) if x else '-' for x in scripts), sched or '-')
+
+
+def gen_q_exhaustive(tier):
+    """every schedule word of length L over the participants (the tail is completed round-robin)"""
+    cs = []
+    confs = [([['w', 'u'], ['r', 'u']], 7), ([['w', 'u'], ['w', 'u']], 7), ([['r', 'u'], ['r', 'u']], 8),
+             ([['r', 'u'], ['r', 'u'], ['w']], 5 if tier == 'quick' else 7), ([['w', 'u', 'r', 'u'], ['r', 'u', 'w', 'u']], 6 if tier == 'quick' else 9)]
+    for scripts, L in confs:
+        n = len(scripts)
+        def rec(prefix):
+            if len(prefix) == L:
+                cs.append(q_case(scripts, prefix)); return
+            for p in range(n): rec(prefix + B36[p])
+        rec('')
+    return cs
+
+
+def gen_q_random(rng):
+    n = rng.randint(2, 4)
+    scripts = []
+    for p in range(n):
+        ops = []
+        for _ in range(rng.randint(1, 4)):
+            ops.append(rng.choice(['r', 'r', 'w']))
+            if rng.random() < .85: ops.append('u')
+            if rng.random() < .1: ops.append('u')
+        scripts.append(ops)
+    # bursty schedule with a victim stalled in the middle of an op
+    L = rng.randint(5, 40)
+    sched = ''
+    cur = rng.randrange(n)
+    for _ in range(L):
+        if rng.random() < .35: cur = rng.randrange(n)
+        sched += B36[cur]
+    return q_case(scripts, sched)
+
+
+def analyse_q(case, out):
+    """holder accounting on the implementation's atomic-step log, independent of the Coq model"""
+    if not out.startswith('steps='):
+        return 'failed run: %r' % out[:200]
+    if ' livelock ' in out: return 'livelock: %s' % out[:200]
+    if 'E3ERROR' in out: return out[:300]
+    f = out.split(' LOG ')
+    head = dict(kv.split('=', 1) for kv in f[0].split(' ') if '=' in kv)
+    log = f[1].split(' ') if len(f) > 1 and f[1] else []
+    M = 1 << 64
+    sgn = lambda x: x - M if x >= (1 << 63) else x
+    val = 0            # tracked lock_state
+    holders = []       # (participant, 'R'|'W')
+    nacq = {}
+    for e in log:
+        w = e.split('.')
+        p, kind, addr = int(w[0]), w[1], w[2]
+        if addr != 'ls': continue
+        if kind == 'ld':
+            if sgn(int(w[3])) != val: return 'load of lock_state saw %d, tracked value %d (%s)' % (sgn(int(w[3])), val, e)
+        elif kind == 'cas':
+            exp, des, obs_, ok = sgn(int(w[3])), sgn(int(w[4])), sgn(int(w[5])), w[6] == '1'
+            if obs_ != val: return 'CAS observed %d, tracked value %d (%s)' % (obs_, val, e)
+            if ok:
+                if des == -1:
+                    if holders: return 'participant %d took the WRITE lock while held by %s (%s)' % (p, holders, e)
+                    holders.append((p, 'W'))
+                elif des == exp + 1 and exp >= 0:
+                    if any(m == 'W' for _, m in holders): return 'participant %d took a READ lock while a writer holds (%s)' % (p, e)
+                    holders.append((p, 'R'))
+                else: return 'unexpected successful CAS %s' % e
+                val = des; nacq[p] = nacq.get(p, 0) + 1
+        elif kind == 'st':
+            if int(w[3]) != 0 or (p, 'W') not in holders: return 'store to lock_state by a non-writer (%s)' % e
+            holders.remove((p, 'W')); val = 0
+        elif kind == 'fs':
+            if sgn(int(w[4])) != val: return 'fetch_sub saw %d, tracked %d (%s)' % (sgn(int(w[4])), val, e)
+            if (p, 'R') not in holders: return 'fetch_sub by a non-reader (%s)' % e
+            holders.remove((p, 'R')); val -= 1
+        else: return 'unexpected access to lock_state: %s' % e
+        exp_val = -1 if any(m == 'W' for _, m in holders) else len(holders)
+        if val != exp_val: return 'lock_state %d does not match the holders %s after %s' % (val, holders, e)
+    if int(head['final']) != val: return 'final lock_state %s, tracked %d' % (head['final'], val)
+    # results: a try_lock returned 0 exactly when its CAS succeeded
+    scripts = [x.strip().split() for x in case.split('|')[1:-1]]
+    for p, rs in enumerate(head['res'].split('|')):
+        rs = [int(x) for x in rs.rstrip('*').split(',') if x != '']
+        ops = [o for o in scripts[p] if o != '-']
+        got = sum(1 for o, r in zip(ops, rs) if o in 'wr' and r == 0)
+        if got != nacq.get(p, 0): return 'participant %d: %d try_lock calls returned 0 but %d acquisitions in the log' % (p, got, nacq.get(p, 0))
+        for o, r in zip(ops, rs):
+            if o in 'wr' and r not in (0, -1): return 'try_lock returned %d' % r
+            if o == 'u' and r not in (0, -2): return 'unlock by a holder returned %d' % r
+    return None
+
+
 # ------------------------------------------------------------------ oracle --------
 def analyse(case, out):
     """the property evaluated on the implementation's trace, independently of the Coq model.
@@ -192,6 +291,14 @@ def analyse(case, out):
                             fails.append(('viol', 'lock returned ETIMEDOUT at t=%d before its deadline %d' % (now, start + tmo)))
                     elif err <= 0:
                         fails.append(('viol', 'failed lock with errno %d' % err))
+                    # scenario (a): a writer gives up while only readers hold; readers queued behind it stay queued
+                    if m == 'W' and holders[obj] and all(x[1] == 'R' for x in holders[obj]):
+                        ws = definite_waiters(j, obj)
+                        if ws and all(mm == 'R' for _, _, mm in ws):
+                            late = [kk for kk, pp, mm in ws if (kk, pp) not in done or res['tr'][done[(kk, pp)]][4] > now]
+                            if late:
+                                fails.append(('convoy', 'writer T%d gave up at t=%d while only readers %s hold lock %d; readers T%s stay queued '
+                                              'although a fresh reader would be admitted (failed lock is not "as if not called")' % (k, now, holders[obj], obj, late)))
                     # the finite deadline is met exactly (virtual time)
                 if name != 'q_try' and start is not None and len(a) > 2 and u64(a[2]) != MAX64 and now > start + u64(a[2]):
                     fails.append(('viol', 'timed lock issued at %d with timeout %d returned at %d' % (start, u64(a[2]), now)))
@@ -241,7 +348,7 @@ def analyse(case, out):
 class Check(DiffCheck):
     id = 'C06'
     needs_libphoton = True
-    coq_dirs = ['Base', 'C04', 'Sched', 'C06']
+    coq_dirs = ['Base', 'C04', 'Sched', 'E3', 'C06']
     coq_targets = ['C06/C06_Proofs.vo']
     properties_v = 'C06/C06_Properties.v'
     extract_v = 'C06/C06_Extract.v'
@@ -262,7 +369,13 @@ class Check(DiffCheck):
         self._last = None
 
     def build_impl(self):
-        return e2lib.build_impl(self.id, ['harness/C06/ops_rw.cpp'])
+        e2 = e2lib.build_impl(self.id, ['harness/C06/ops_rw.cpp'], out=os.path.join(BUILD, 'bin', 'C06_e2'))
+        e3, log = cxx_build(self.id, ['harness/C06/qrw_e3.cpp'], libphoton=True, out=os.path.join(BUILD, 'bin', 'C06_e3'))
+        if not e3: raise RuntimeError(log[-3000:])
+        disp = os.path.join(BUILD, 'bin', 'C06_impl')
+        open(disp, 'w').write('#!/bin/sh\nexec python3 %s %s %s "$1"\n' % (os.path.join(VERIF, 'harness', 'C06', 'dispatch.py'), e2, e3))
+        os.chmod(disp, 0o755)
+        return disp
 
     def gen_cases(self, tier, rng):
         cs = []
@@ -270,9 +383,12 @@ class Check(DiffCheck):
         if os.path.exists(cp):
             cs += [l.strip() for l in open(cp) if l.strip() and not l.startswith('#')]
         cs += CORPUS
-        nprog = 1200 if tier == 'quick' else 30000
+        nprog = 400 if tier == 'quick' else 20000
         for i in range(nprog):
             cs.append(gen_prog(rng, big=(i % 10 == 9)))
+        cs += gen_q_exhaustive(tier)
+        for i in range(1500 if tier == 'quick' else 40000):
+            cs.append(gen_q_random(rng))
         return list(dict.fromkeys(cs))
 
     def canon(self, line):
@@ -280,6 +396,9 @@ class Check(DiffCheck):
         return self._last
 
     def nontrivial(self, case):
+        if case.startswith('Q'):
+            sc = [x.split() for x in case.split('|')[1:-1]]
+            return sum(1 for x in sc if 'w' in x or 'r' in x) >= 2 and any('w' in x for x in sc)
         decls, th = e2lib.parse_case(case)
         seen = {}
         for k, t in enumerate(th):
@@ -292,19 +411,29 @@ class Check(DiffCheck):
         return False
 
     def category(self, case):
+        if case.startswith('Q'): return 'Q:%dp' % (len(case.split('|')) - 2)
         decls, th = e2lib.parse_case(case)
         ops = [o[0] for t in th for o in t]
         kind = 'q' if any(d[0] == 'qrwlock' for d in decls) and not any(d[0] == 'rwlock' for d in decls) else 'rw' if not any(d[0] == 'qrwlock' for d in decls) else 'mix'
         return 'P:%s:%dthr:%s' % (kind, len(th), '+'.join(x for x in ('interrupt', 'q_try') if x in ops) or 'plain')
 
     def oracle(self, case, out):
+        if case.startswith('Q'): return analyse_q(case, out)
         a = analyse(case, out)
-        return a[0][1] if a else None
+        v = [x for x in a if x[0] == 'viol']
+        return v[0][1] if v else (a[0][1] if a else None)
 
     def known_class(self, case):
+        # classification needs the implementation's trace: `canon` (called on the implementation's line
+        # immediately before this) stashed it.  A case is in the class only if EVERY failure the oracle
+        # sees in it has exactly the shape of scenario (a) (notes/C06.md, finding C06-convoy).
+        if case.startswith('Q') or self._last is None: return None
+        a = analyse(case, self._last)
+        if a and all(k == 'convoy' for k, _ in a): return 'C06-convoy'
         return None
 
     def neighbours(self, case, rng):
+        if case.startswith('Q'): return []
         d, th = e2lib.parse_case(case)
         out = []
         for k in range(len(th)):
